@@ -218,9 +218,9 @@ theorem itc_cast (env : Env) (o : Itc) (i : Nat) (s : St) (h : s.term i = false)
 
 /-! ### timed conditions over an abstract monotone clock -/
 
-/-- a timed condition created at clock reading `r₀` with duration `d` answers, at a later reading
-`r`, exactly whether more than `d` has elapsed: false before (and at) the deadline, true after. -/
-theorem timed_exact (env : Env) (i : Nat) (d : Int) (s0 s : St)
+/-- the idealisation over unbounded integers (`mkTimed`): a timed condition created at clock reading `r₀`
+with duration `d` answers, at reading `r`, exactly whether more than `d` has elapsed. -/
+theorem timed_exact_ideal (env : Env) (i : Nat) (d : Int) (s0 s : St)
     (h : s.term i = false) :
     (eval env (mkTimed env i false d s0).1 s).1 = decide (env.clock s.reads - env.clock s0.reads > d) := by
   simp only [mkTimed, eval, h, callLeaf]
@@ -229,25 +229,81 @@ theorem timed_exact (env : Env) (i : Nat) (d : Int) (s0 s : St)
   apply propext
   constructor <;> intro hh <;> omega
 
-/-- the condition **as coded** (`mkTimedCoded`: the end point is a wrapping 64-bit addition on the clock's
-absolute nanoseconds) meets `timed_exact` whenever the end point fits the clock's range.
+/-- **the code as it is** (`mkTimedCoded`: `endTimeAfter`, saturating, since /repo f29ac4e4e) meets the same
+statement at full strength: for *every* integer duration `d` (in the clock's nanoseconds; no range
+hypothesis on `d`), provided only that the clock's own readings are representable time points
+(`time::point::min() < now ≤ time::point::max()`, i.e. the years 1678 … 2262 for the system clock):
+false before and at the deadline, true after it - and when the deadline lies beyond the clock's range,
+false (resp. true) at every reading. -/
+theorem timed_exact (env : Env) (base : Int) (i : Nat) (d : Int) (s0 s : St) (h : s.term i = false)
+    (hclock : ∀ k, -9223372036854775808 < base + env.clock k ∧ base + env.clock k ≤ 9223372036854775807) :
+    (eval env (mkTimedCoded env base i false d s0).1 s).1 = decide (env.clock s.reads - env.clock s0.reads > d) := by
+  have h0 := hclock s0.reads
+  have h1 := hclock s.reads
+  simp only [mkTimedCoded, endPointSat, eval, h, callLeaf]
+  simp only [Bool.false_eq_true, ↓reduceIte]
+  congr 1
+  apply propext
+  split
+  · constructor <;> intro hh <;> omega
+  · split
+    · constructor <;> intro hh <;> omega
+    · constructor <;> intro hh <;> omega
 
-Full statement (no range hypothesis): refuted by `timed_overflow_fails` (finding F195). -/
-theorem timed_exact_partial (env : Env) (base : Int) (i : Nat) (d : Int) (s0 s : St) (h : s.term i = false)
+/-- every `double` duration: the `double` factories use `d = secondsToNsSat sec` (`saturatedSeconds`), so
+the condition is true exactly when more than *that many nanoseconds* have elapsed.  What the conversion
+does outside `time::seconds`' range is stated by `seconds_nan` (NaN counts as 0: the condition turns true
+as soon as the clock has moved) and `seconds_huge` (+infinity, DBL_MAX, anything from ~292 years on:
+`duration::max()`, and then `timed_huge_never_true`). -/
+theorem timed_exact_double (env : Env) (base : Int) (i : Nat) (sec : Float) (s0 s : St) (h : s.term i = false)
+    (hclock : ∀ k, -9223372036854775808 < base + env.clock k ∧ base + env.clock k ≤ 9223372036854775807) :
+    (eval env (mkTimedCoded env base i false (secondsToNsSat sec) s0).1 s).1 =
+      decide (env.clock s.reads - env.clock s0.reads > secondsToNsSat sec) :=
+  timed_exact env base i _ s0 s h hclock
+
+theorem seconds_nan (sec : Float) (h : sec.isNaN = true) : secondsToNsSat sec = 0 := by
+  simp [secondsToNsSat, h]
+
+theorem seconds_huge (sec : Float) (hn : sec.isNaN = false)
+    (hbig : Float.ofInt 9223372036854775807 / 1000000000.0 - 1.0 ≤ sec) :
+    secondsToNsSat sec = 9223372036854775807 := by
+  simp [secondsToNsSat, hn, hbig]
+
+/-- a condition whose duration saturated (`duration::max()`: "run for ever"), created at or after the clock's
+epoch, is false at every representable reading of the clock - what F195 violated.  (Created before the
+epoch, 292 years can really elapse within the clock's range; `timed_exact` covers that.) -/
+theorem timed_huge_never_true (env : Env) (base : Int) (i : Nat) (s0 s : St) (h : s.term i = false)
+    (hclock : ∀ k, -9223372036854775808 < base + env.clock k ∧ base + env.clock k ≤ 9223372036854775807)
+    (hepoch : 0 ≤ base + env.clock s0.reads) :
+    (eval env (mkTimedCoded env base i false 9223372036854775807 s0).1 s).1 = false := by
+  rw [timed_exact env base i _ s0 s h hclock]
+  have h0 := hclock s0.reads
+  have h1 := hclock s.reads
+  simp only [decide_eq_false_iff_not]
+  omega
+
+example : (eval { pred := fun _ _ => false, clock := fun k => (k : Int) * 1000000000 }
+    (mkTimedCoded { pred := fun _ _ => false, clock := fun k => (k : Int) * 1000000000 } 1000000000000000 0 false
+      9223372036854775807 {}).1 { reads := 5 }).1 = false := by decide
+
+/-- the code **before** f29ac4e4e (`mkTimedOld`: wrapping 64-bit end point) met the statement only while
+the end point fitted the clock's range … -/
+theorem timed_exact_old_partial (env : Env) (base : Int) (i : Nat) (d : Int) (s0 s : St) (h : s.term i = false)
     (hlo : -9223372036854775808 ≤ base + env.clock s0.reads + d)
     (hhi : base + env.clock s0.reads + d < 9223372036854775808) :
-    (eval env (mkTimedCoded env base i false d s0).1 s).1 = decide (env.clock s.reads - env.clock s0.reads > d) := by
-  simp only [mkTimedCoded, endPointCoded, wrap64_of_inRange _ hlo hhi, eval, h, callLeaf]
+    (eval env (mkTimedOld env base i false d s0).1 s).1 = decide (env.clock s.reads - env.clock s0.reads > d) := by
+  simp only [mkTimedOld, endPointOld, wrap64_of_inRange _ hlo hhi, eval, h, callLeaf]
   simp only [Bool.false_eq_true, ↓reduceIte]
   congr 1
   apply propext
   constructor <;> intro hh <;> omega
 
-/-- F195: a duration of 2^63 ns (292 years; likewise +infinity, DBL_MAX, `time::duration::max()` after the
-conversion) wraps around and the condition is true at the very reading it was created at. -/
+/-- … and not beyond (F195, fixed): a duration of 2^63 ns (292 years; likewise +infinity, DBL_MAX,
+`time::duration::max()` after the old conversion) wrapped around and the condition was true at the very
+reading it was created at. -/
 theorem timed_overflow_fails :
     ¬ (∀ (env : Env) (base : Int) (i : Nat) (d : Int) (s0 s : St), s.term i = false →
-        (eval env (mkTimedCoded env base i false d s0).1 s).1 = decide (env.clock s.reads - env.clock s0.reads > d)) := by
+        (eval env (mkTimedOld env base i false d s0).1 s).1 = decide (env.clock s.reads - env.clock s0.reads > d)) := by
   intro hall
   have h := hall { pred := fun _ _ => false, clock := fun _ => 0 } 0 0 9223372036854775808 {} {} rfl
   revert h
